@@ -553,6 +553,9 @@ func RunChurnKV(cfg ChurnCfg, scratch string) *ChurnResult {
 						if out.Err == "" {
 							break
 						}
+						if out.Timeout {
+							time.Sleep(50 * time.Millisecond) // transport trouble on the real RPC path: give it time
+						}
 						time.Sleep(2 * time.Millisecond)
 					}
 					_ = fr
